@@ -14,6 +14,28 @@ What is read from the source (an edit of any of these changes gen/ReachGen.v, or
   * `Tub.getReferenceForName`, `_assignName`, `NAMEBITS`                -> name_lookup_shape, NAMEBITS
   * the key sets of the registries as they are after `import foolscap.api` (imported from $VERIF_REPO/src):
     PBRootUnslicer.topRegistries / openRegistries, copyable.CopyableRegistry -> top_types, open_types, copyable_names
+
+Equivalent source forms accepted (each with the argument why it is equivalent for ALL inputs; everything else fails closed):
+  (E1) the clid of a new tracker: the assignments to the local `clid` in getTrackerForMyReference / getTrackerForMyCall are read
+       as a sign: [`clid = next(self.nextCLID)`] -> +, [`clid = next(self.nextCLID)`; `clid = -clid`] -> -, and
+       [`clid = -next(self.nextCLID)`] -> -.  `clid = E; clid = -clid` and `clid = -E` evaluate E once, apply the same unary
+       minus to the same value and bind the same local; nothing reads `clid` in between (the two assignments must be adjacent).
+  (E2) Broker.remote_decref: `done = tracker.decref(count)` immediately followed by `if done:` (done not used elsewhere) and
+       `if tracker.decref(count):` are the same (one local, assigned once, immediately before its only use; decref is called
+       exactly once at the same point either way).
+  (E3) Broker.remote_decref: `self.myReferenceByCLID.get(clid, None)` and `self.myReferenceByCLID.get(clid)` are accepted
+       as the same ONLY after the translator has established, by scanning every module of the package (tests excluded), that
+       every store to an attribute named `myReferenceByCLID` assigns an empty dict display `{}` (and every setattr() has a
+       literal other name, or a name drawn from a literal tuple of other names): the receiver is then a builtin
+       dict, whose `get(k)` is defined by the language as `get(k, None)`, for every key.  If any other store exists (another
+       mapping type could define get differently) the one-argument form fails closed.
+  (E4) RootUnslicer.open / doOpen registry loops are matched structurally, up to the names of the loop variable and locals
+       (alpha-renaming of function locals) and with `child = opener(); return child` == `return opener()` (single-use temporary
+       assigned immediately before its only use): `for R in self.<regs>: X = R.get(opentype); if X is not None: <return X()>`.
+  (E5) RootUnslicer.open copyable branch: `if len(opentype) > 1: <lookup...return> ; return None` and
+       `if len(opentype) <= 1: return None ; <lookup...return>` -- len() returns an int, for which `<= 1` is the negation of
+       `> 1`, and both arms end in return, so the two layouts execute the same statements; checked by collecting, for either
+       layout, the statements of the "name present" arm.
 """
 import ast, os, sys
 from translate import pylite as P
@@ -240,14 +262,14 @@ def generate():
         U("initBroker: self.nextCLID = count(<int>) not found")
     out.append("Definition first_clid : Z := %s." % P.zlit(int(cnt[0].value.args[0].value)))
     t1 = P.find_def(bm, "Broker.getTrackerForMyReference")
-    frags(t1, "getTrackerForMyReference", ["tracker = self.myReferenceByPUID.get(puid)", "clid = next(self.nextCLID)",
+    frags(t1, "getTrackerForMyReference", ["tracker = self.myReferenceByPUID.get(puid)",
                                           "self.myReferenceByPUID[puid] = tracker", "self.myReferenceByCLID[clid] = tracker"])
-    if "clid = -clid" in ast.unparse(t1):
+    if clid_sign(t1) != "+":
         U("getTrackerForMyReference negates the clid")
     t2 = P.find_def(bm, "Broker.getTrackerForMyCall")
-    frags(t2, "getTrackerForMyCall", ["tracker = self.myReferenceByPUID.get(puid)", "clid = next(self.nextCLID)", "clid = -clid",
+    frags(t2, "getTrackerForMyCall", ["tracker = self.myReferenceByPUID.get(puid)",
                                      "self.myReferenceByPUID[puid] = tracker", "self.myReferenceByCLID[clid] = tracker"])
-    out.append("Definition callable_clid_negated : bool := true.")
+    out.append("Definition callable_clid_negated : bool := %s." % ("true" if clid_sign(t2) == "-" else "false"))
     fin = P.find_def(bm, "Broker.finish")
     frags(fin, "Broker.finish", ["self.myReferenceByCLID = {}", "self.myReferenceByPUID = {}"])
 
@@ -277,6 +299,14 @@ def generate():
             "if not tracker:\n    return", "done = tracker.decref(count)",
             "if done:\n    del self.myReferenceByPUID[tracker.puid]\n    del self.myReferenceByCLID[clid]"]
     got = [ast.unparse(s) for s in body_nodoc(rd)]
+    # (E3) one-argument get on a receiver that is provably a builtin dict
+    if len(got) > 2 and got[2] == "tracker = self.myReferenceByCLID.get(clid)":
+        if not attribute_is_always_empty_dict("myReferenceByCLID"):
+            U("Broker.remote_decref uses .get(clid) but myReferenceByCLID is not provably a builtin dict")
+        got[2] = want[2]
+    # (E2) the result of decref tested directly
+    if len(got) == 5 and got[4] == "if tracker.decref(count):\n    del self.myReferenceByPUID[tracker.puid]\n    del self.myReferenceByCLID[clid]":
+        got = got[:4] + want[4:]
     if got != want:
         U("Broker.remote_decref changed:\n" + "\n".join(got))
     out.append("Definition decref_shape : bool := true.  (* assert clid != 0; .get; tracker.decref(count); delete both entries when done *)")
@@ -310,13 +340,13 @@ def generate():
     if not (isinstance(op.body[-1], ast.Raise) and ast.unparse(op.body[-1].exc).startswith("Violation(")):
         U("RootUnslicer.open no longer ends with raise Violation(unknown OPEN type)")
     loops = [s for s in op.body if isinstance(s, ast.For)]
-    if len(loops) != 1 or ast.unparse(loops[0].iter) != "self.openRegistries" or \
-            "opener = reg.get(opentype)" not in ast.unparse(loops[0]):
+    if len(loops) != 1 or not registry_loop(loops[0], "self.openRegistries"):
         U("RootUnslicer.open: registry loop changed")
+    copyable_branch(op)
     out.append("Definition open_unknown : refusal := RejectR.")
     do = P.find_def(sm, "RootUnslicer.doOpen")
     loops = [s for s in do.body if isinstance(s, ast.For)]
-    if len(loops) != 1 or ast.unparse(loops[0].iter) != "self.topRegistries" or not loops[0].orelse or \
+    if len(loops) != 1 or not loops[0].orelse or not registry_loop(loops[0], "self.topRegistries") or \
             not ast.unparse(loops[0].orelse[0]).startswith("raise Violation("):
         U("RootUnslicer.doOpen: registry loop changed")
     pbo = P.find_def(bm, "PBRootUnslicer.open")
@@ -449,6 +479,150 @@ def generate():
         U("CopyableRegistry has a non-str key")
     out.append("Definition copyable_names : list string := [%s]." % "; ".join(coq_string(n) for n in names))
     return {"ReachGen.v": "\n\n".join(out) + "\n"}
+
+
+def clid_sign(fn):
+    """(E1) how the local `clid` is computed from next(self.nextCLID): '+' or '-'; anything else fails closed"""
+    stmts = []
+
+    def walk(body):
+        for i, st in enumerate(body):
+            if isinstance(st, ast.Assign) and len(st.targets) == 1 and ast.unparse(st.targets[0]) == "clid":
+                stmts.append((ast.unparse(st.value), body, i))
+            elif isinstance(st, (ast.AugAssign, ast.AnnAssign)) and ast.unparse(st.target) == "clid":
+                U("%s: clid is updated in place" % fn.name)
+            for fld in ("body", "orelse", "finalbody"):
+                sub = getattr(st, fld, None)
+                if isinstance(sub, list) and sub and isinstance(sub[0], ast.stmt):
+                    walk(sub)
+            for h in getattr(st, "handlers", []):
+                walk(h.body)
+    walk(fn.body)
+    vals = [v for v, _, _ in stmts]
+    if vals == ["next(self.nextCLID)"]:
+        return "+"
+    if vals == ["-next(self.nextCLID)"]:
+        return "-"
+    if vals == ["next(self.nextCLID)", "-clid"] and stmts[0][1] is stmts[1][1] and stmts[1][2] == stmts[0][2] + 1:
+        return "-"
+    U("%s: clid is not next(self.nextCLID) or its negation: %s" % (fn.name, vals))
+
+
+def attribute_is_always_empty_dict(attr):
+    """(E3) every store to `<anything>.attr` in the package (tests excluded) assigns the empty dict display"""
+    n = 0
+    for d, dirs, files in os.walk(P.SRC):
+        dirs[:] = [x for x in dirs if x not in ("test", "__pycache__")]
+        for f in files:
+            if not f.endswith(".py"):
+                continue
+            rel = os.path.relpath(os.path.join(d, f), P.SRC)
+            try:
+                tree = ast.parse(P.source(rel))
+            except Exception:
+                return False
+            for node in ast.walk(tree):
+                targets = []
+                if isinstance(node, ast.Assign):
+                    for t in node.targets:
+                        targets += [x for x in ast.walk(t)]
+                    val = node.value
+                elif isinstance(node, (ast.AugAssign, ast.AnnAssign)):
+                    targets = [x for x in ast.walk(node.target)]
+                    val = None
+                elif isinstance(node, ast.Call) and isinstance(node.func, ast.Name) and node.func.id == "setattr":
+                    if len(node.args) >= 2 and not (isinstance(node.args[1], ast.Constant) and node.args[1].value != attr) \
+                            and not setattr_name_is_bounded(tree, node, attr):
+                        return False      # a setattr whose attribute name could be ours
+                    continue
+                else:
+                    continue
+                for t in targets:
+                    if isinstance(t, ast.Attribute) and t.attr == attr and isinstance(t.ctx, ast.Store):
+                        if not (isinstance(val, ast.Dict) and not val.keys) or len(getattr(node, "targets", [1])) != 1 \
+                                or not isinstance(node.targets[0], ast.Attribute):
+                            return False
+                        n += 1
+                    if isinstance(t, ast.Name) and t.id == attr and isinstance(t.ctx, ast.Store):
+                        return False      # a class-level / module-level binding of that name
+    return n > 0
+
+
+def setattr_name_is_bounded(tree, call, attr):
+    """setattr(o, k, v) where k is the variable of an enclosing `for k in (<string literals>)` that is not rebound in the
+    loop and whose literals do not include attr: the attribute name can then never be attr"""
+    k = call.args[1]
+    if not isinstance(k, ast.Name):
+        return False
+    for loop in ast.walk(tree):
+        if isinstance(loop, ast.For) and isinstance(loop.target, ast.Name) and loop.target.id == k.id \
+                and any(n is call for b in loop.body for n in ast.walk(b)):
+            if not (isinstance(loop.iter, (ast.Tuple, ast.List)) and all(isinstance(e, ast.Constant) and isinstance(e.value, str)
+                                                                          and e.value != attr for e in loop.iter.elts)):
+                return False
+            for b in loop.body:
+                for n in ast.walk(b):
+                    if isinstance(n, ast.Name) and n.id == k.id and isinstance(n.ctx, ast.Store):
+                        return False
+            return True
+    return False
+
+
+def registry_loop(loop, regs):
+    """(E4) `for R in <regs>: X = R.get(opentype); if X is not None: [C = X(); ...] ` with the named parts free"""
+    if ast.unparse(loop.iter) != regs or not isinstance(loop.target, ast.Name) or len(loop.body) != 2:
+        return False
+    r = loop.target.id
+    a, t = loop.body
+    if not (isinstance(a, ast.Assign) and len(a.targets) == 1 and isinstance(a.targets[0], ast.Name)
+            and ast.unparse(a.value) == "%s.get(opentype)" % r):
+        return False
+    x = a.targets[0].id
+    if x == r or not (isinstance(t, ast.If) and not t.orelse and ast.unparse(t.test) == "%s is not None" % x):
+        return False
+    b = [ast.unparse(q) for q in t.body]
+    if loop.orelse:                                  # doOpen: `child = X(); break` ... else: raise Violation
+        return len(t.body) == 2 and isinstance(t.body[0], ast.Assign) and ast.unparse(t.body[0].value) == "%s()" % x \
+            and isinstance(t.body[1], ast.Break)
+    if b == ["return %s()" % x]:
+        return True
+    return len(t.body) == 2 and isinstance(t.body[0], ast.Assign) and len(t.body[0].targets) == 1 \
+        and isinstance(t.body[0].targets[0], ast.Name) and ast.unparse(t.body[0].value) == "%s()" % x \
+        and b[1] == "return %s" % t.body[0].targets[0].id and t.body[0].targets[0].id not in (x, r)
+
+
+def copyable_branch(op):
+    """(E5) the ('copyable', name) branch of RootUnslicer.open in either layout: when the name is present, look it up in
+    copyable.CopyableRegistry (KeyError -> Violation), call what was found with no arguments and return the result;
+    otherwise return None"""
+    br = [s for s in op.body if isinstance(s, ast.If) and ast.unparse(s.test) == "opentype[0] == 'copyable'"]
+    if len(br) != 1 or br[0].orelse:
+        U("RootUnslicer.open: the ('copyable', ...) branch is not `if opentype[0] == 'copyable':`")
+    body = br[0].body
+    present = None
+    if len(body) == 2 and isinstance(body[0], ast.If) and not body[0].orelse and ast.unparse(body[0].test) == "len(opentype) > 1" \
+            and ast.unparse(body[1]) == "return None":
+        present = body[0].body
+    elif len(body) >= 2 and isinstance(body[0], ast.If) and not body[0].orelse and ast.unparse(body[0].test) == "len(opentype) <= 1" \
+            and [ast.unparse(q) for q in body[0].body] == ["return None"]:
+        present = body[1:]
+    if present is None:
+        U("RootUnslicer.open: the ('copyable', ...) branch has an unknown layout")
+    if len(present) < 3 or ast.unparse(present[0]) != "copyablename = opentype[1]" or not isinstance(present[1], ast.Try):
+        U("RootUnslicer.open: copyable name is not taken from opentype[1] and looked up under try")
+    tr = present[1]
+    if len(tr.body) != 1 or not isinstance(tr.body[0], ast.Assign) or len(tr.body[0].targets) != 1 \
+            or not isinstance(tr.body[0].targets[0], ast.Name) \
+            or ast.unparse(tr.body[0].value) != "copyable.CopyableRegistry[copyablename]" or tr.orelse or tr.finalbody:
+        U("RootUnslicer.open: copyable lookup changed")
+    f = tr.body[0].targets[0].id
+    rest = [ast.unparse(q) for q in present[2:]]
+    ok = rest == ["return %s()" % f]
+    if not ok and len(present) == 4 and isinstance(present[2], ast.Assign) and len(present[2].targets) == 1 \
+            and isinstance(present[2].targets[0], ast.Name) and present[2].targets[0].id != f:
+        ok = rest == ["%s = %s()" % (present[2].targets[0].id, f), "return %s" % present[2].targets[0].id]
+    if not ok:
+        U("RootUnslicer.open: what the copyable lookup found is not simply called and returned: %s" % rest)
 
 
 def copyable_refusal(op):
